@@ -33,6 +33,17 @@ assembled with hooks, every sym_def / reserve / emit / diag / stmt record and th
 UNION against the promise.  Finding: known_findings/C10-structinst.json (member inside a nameless body loses that body's
 offset in every instance; proposed_fixes/C10-anon-member-offset.diff).  Mutations m1..m4 tried: see ext_structinst.py.
 ./check C10 --selftest: nine corrupted observations are each rejected by TLC.
+
+Extension "dupres" (checks/ext_dupres.py, last phase of main(); spec modules "PackedRes", "PackedRes_MC", "PackedRes_Gen"):
+the reservations above are `DS n` / `RES n` only - a unit count.  Added dimension: reservations (and constants) written
+with DN/DB/DW/DD/DQ/DT, `?` and nested DUP groups, on segments whose address unit is larger than, equal to or smaller than
+the element (z80 8 bit, AVR / KCPSM CODE 16 bit with DATA 8 bit, KCPSM3 CODE 32 bit): every position inside a unit at
+which a group can begin and end, counts <= 0 / 1 / > 1.  PackedRes walks the argument list token by token with the
+code's fill-position arithmetic next to the manual's flat element count; TLC checks them equal at every token, refutes
+three named deviations, and prints every statement of the bounded token space + simulated programs with the address in
+front of and behind each statement; the labels the real asl defines there must read exactly that.  Added after an
+independent seeded change (SubCodeFill without its borrow: `db ?, 3 dup (?)` in the AVR code segment one word too
+large) went unnoticed; now 67 rejected sources in the quick tier.  Finding C10-empty-dup-group-drops-statement.
 """
 import os
 
@@ -311,6 +322,8 @@ def main(tier):
                           key={"test": names[v.fail_exec]})
     from checks import ext_structinst       # phase "structinst": definition details and instantiation of structures
     ext_structinst.run(rep, bld, tier)
+    from checks import ext_dupres           # phase "dupres": `?` / DUP reservations packed into larger address units
+    ext_dupres.run(rep, bld, tier)
     return rep.finish(rule="generated = TLC-simulated AddrBook_Gen behaviours (distinct by rendered source x 2 dialects; "
                            "non-trivial = at least 3 different statement kinds); traces = one execution per pass of each "
                            "golden program, one event per source statement", exhaustive=False)
@@ -323,6 +336,9 @@ def replay(path):
     if (v.get("key") or {}).get("phase") == "structinst":
         from checks import ext_structinst
         return ext_structinst.replay(path, v["case"])
+    if (v.get("key") or {}).get("phase") == "dupres":
+        from checks import ext_dupres
+        return ext_dupres.replay(path, v["case"])
     log(open(os.path.join(path, "violation.json")).read()[:3000])
     return 0
 
